@@ -30,7 +30,9 @@ import (
 	"verifharness/gen"
 	"verifharness/hx"
 	"verifharness/recfs"
+	"verifharness/ref/acode"
 	"verifharness/ref/esl"
+	"verifharness/ref/pehash"
 )
 
 var errInjected = errors.New("c15: injected dependency failure")
@@ -250,6 +252,9 @@ func checkCase(c Case) error {
 		nParse := base.calls
 		want := bin.Hash(crypto.SHA256)
 		nHash := base.calls - nParse
+		if ref, err := pehash.Hash(img); err != nil || !bytes.Equal(ref.Digest, want) {
+			return fmt.Errorf("fault-free Hash returns %x, the specification digest is %x (state left behind by an earlier failed operation?)", want, refDigest(ref))
+		}
 		if _, err := bin.Sign(key, id.Cert); err != nil {
 			return fmt.Errorf("bad case: Sign: %v", err)
 		}
@@ -303,6 +308,12 @@ func checkCase(c Case) error {
 						return fmt.Errorf("Hash: read %d of %d failed (%s) but a digest was returned (%x, correct digest %x)", k, nHash, kind, d, want)
 					}
 				}
+				if r.fired && kind != "sticky" {
+					// the fault is over: a second call on the same object gives no digest or the right one, never a wrong one
+					if d := p.Hash(crypto.SHA256); d != nil && !bytes.Equal(d, want) {
+						return fmt.Errorf("Hash: after read %d of %d had failed once (%s), a second Hash on the same object returned the wrong digest %x (correct %x)", k, nHash, kind, d, want)
+					}
+				}
 			}
 			for k := 1; k <= nSign; k++ {
 				fault("Sign/reader", k, kind)
@@ -320,6 +331,12 @@ func checkCase(c Case) error {
 					r.failAt = 0
 					if sigs, _ := p.Signatures(); len(sigs) != 0 {
 						return fmt.Errorf("Sign: failed signing (reader fault) left %d signatures on the image object", len(sigs))
+					}
+					// a later signature on the same object must be a correct one
+					if _, err := p.Sign(key, id.Cert); err == nil {
+						if ok, why := acode.VerifyImage(p.Bytes(), id.Cert); !ok {
+							return fmt.Errorf("Sign: after read %d of %d had failed once (%s), a second Sign on the same object produced a signed image the reference rejects: %s", k, nSign, kind, why)
+						}
 					}
 				}
 			}
@@ -426,6 +443,9 @@ func checkCase(c Case) error {
 			if at.Op == "File.Read" {
 				kinds = append(kinds, "short_ok")
 			}
+			if at.Op == "File.Write" {
+				kinds = append(kinds, "short1")
+			}
 			for _, kind := range kinds {
 				fault(op.name+"/"+at.Op, k, kind)
 				rec := mk()
@@ -466,6 +486,13 @@ func checkCase(c Case) error {
 		hx.SetExtra("dependency_calls_last_case/"+p.op, fmt.Sprint(p.points))
 	}
 	return nil
+}
+
+func refDigest(r *pehash.Result) []byte {
+	if r == nil {
+		return nil
+	}
+	return r.Digest
 }
 
 var _ = rsa.PublicKey{}
